@@ -31,7 +31,7 @@ from typing import Any, Dict, List, Optional, Set, Tuple
 
 from sa import astctor, e7, g4, render
 from sa.cfg import CFG
-from sa.core import AnalysisError, Finding, FuncInfo, Program, Report, program, src, walk_no_nested
+from sa.core import norm_locals, AnalysisError, Finding, FuncInfo, Program, Report, program, src, walk_no_nested
 
 MOD = render.ASTSTR_MOD
 CLS = render.ASTSTR
@@ -393,7 +393,7 @@ STRIP_METHODS = {"strip", "lstrip", "rstrip"}
 
 # (function, normalised expression) -> reason: rewrites of rendered text that exist on the reference tree and are sound
 REWRITE_OK: Dict[Tuple[str, str], str] = {
-    ("visit_RegularAggregation", "dataset[:-1]"): "removes the closing ')' of the rendered join so that the clause body is written inside the join's "
+    ("visit_RegularAggregation", "§[:-1]"): "removes the closing ')' of the rendered join so that the clause body is written inside the join's "
                                                    "parentheses; every rendering of a join ends with ')' (checked: all returns of visit_JoinOp end in ')')",
 }
 
@@ -463,7 +463,7 @@ def _check_rewrites(P: Program, rep: Report, funcs: List[FuncInfo]) -> None:  # 
                     desc = f".{n.func.attr}(chars)"
                 elif n.func.attr in STRIP_METHODS:
                     n_sites += 1
-                    rep.instance("R24.4", f"{f.name}/{src(n)[:50]}", nontrivial=False)
+                    rep.instance("R24.4", f"{f.name}/{norm_locals(src(n), f.node)[:50]}", nontrivial=False)
                     continue
             elif isinstance(n, ast.Call) and src(n.func) in ("re.sub", "re.subn", "re.split") and len(n.args) >= 2 and any(tainted_expr(a) for a in n.args[1:]):
                 desc = src(n.func)
@@ -475,9 +475,9 @@ def _check_rewrites(P: Program, rep: Report, funcs: List[FuncInfo]) -> None:  # 
             if desc is None:
                 continue
             n_sites += 1
-            key = f"{f.name}/{src(n)[:60]}"
+            key = f"{f.name}/{norm_locals(src(n), f.node)[:60]}"
             rep.instance("R24.4", key)
-            ok = REWRITE_OK.get((f.name, src(n)))
+            ok = REWRITE_OK.get((f.name, norm_locals(src(n), f.node)))
             if ok:
                 rep.exemption("R24.4", key, ok)
                 continue
